@@ -199,7 +199,11 @@ func (g *gen) filler(inFunc bool) []zn.Stmt {
 	var out []zn.Stmt
 	for i, n := 0, g.pick(4, "nfill"); i < n; i++ {
 		g.n++
-		switch g.pick(10, "fk") {
+		switch g.pick(11, "fk") {
+		case 10:
+			// calls ended by a loop signal raised in their own handler
+			out = append(out, &zn.ForEach{Names: []string{fmt.Sprintf("跳值%d", g.n)}, E: &zn.ListLit{Items: []zn.Expr{num(1), num(2)}}, Body: []zn.Stmt{&zn.ExprStmt{E: &zn.Call{Name: "跳"}}}})
+			g.labels["call-left-by-loop-signal-in-handler-before"] = true
 		case 9:
 			// a call whose own handler raised again, caught one level further out: all of it
 			// has returned before the planted fault
@@ -336,6 +340,8 @@ func helpers() []zn.Stmt {
 		&zn.FuncDef{Name: "必败", Params: []string{"数"}, Body: []zn.Stmt{&zn.Return{E: &zn.Bin{Op: "/", L: v("数"), R: num(0)}}}},
 		&zn.FuncDef{Name: "停", Body: []zn.Stmt{&zn.Break{}}},
 		&zn.ClassDef{Name: "别错", Props: []zn.Prop{{Name: "内容", Init: &zn.Str{V: ""}}}},
+		&zn.FuncDef{Name: "跳", Body: []zn.Stmt{&zn.Throw{Class: "异常", Args: []zn.Expr{&zn.Str{V: "跳"}}}},
+			Catches: []zn.Catch{{Class: "异常", Body: []zn.Stmt{&zn.Continue{}}}}},
 		&zn.FuncDef{Name: "重抛", Params: []string{"数"}, Body: []zn.Stmt{&zn.Return{E: &zn.Call{Name: "必败", Args: []zn.Expr{v("数")}}}},
 			Catches: []zn.Catch{{Class: "异常", Body: []zn.Stmt{&zn.Throw{Class: "异常", Args: []zn.Expr{&zn.Str{V: "二次"}}}}}}},
 		&zn.FuncDef{Name: "外稳", Params: []string{"数"}, Body: []zn.Stmt{&zn.Return{E: &zn.Call{Name: "重抛", Args: []zn.Expr{v("数")}}}},
@@ -467,6 +473,8 @@ func TestRuntimeFaults(t *testing.T) {
 				&zn.FuncDef{Name: "稳妥", Params: []string{"数"}, Body: []zn.Stmt{&zn.Return{E: &zn.Call{Name: "必败", Args: []zn.Expr{v("数")}}}}, Catches: []zn.Catch{{Class: "异常", Body: []zn.Stmt{&zn.Return{E: num(-1)}}}}},
 				&zn.FuncDef{Name: "停", Body: []zn.Stmt{&zn.Break{}}},
 				&zn.ClassDef{Name: "别错", Props: []zn.Prop{{Name: "内容", Init: &zn.Str{V: ""}}}},
+				&zn.FuncDef{Name: "跳", Body: []zn.Stmt{&zn.Throw{Class: "异常", Args: []zn.Expr{&zn.Str{V: "跳"}}}},
+					Catches: []zn.Catch{{Class: "异常", Body: []zn.Stmt{&zn.Continue{}}}}},
 				&zn.FuncDef{Name: "重抛", Params: []string{"数"}, Body: []zn.Stmt{&zn.Return{E: &zn.Call{Name: "必败", Args: []zn.Expr{v("数")}}}},
 					Catches: []zn.Catch{{Class: "异常", Body: []zn.Stmt{&zn.Throw{Class: "异常", Args: []zn.Expr{&zn.Str{V: "二次"}}}}}}},
 				&zn.FuncDef{Name: "外稳", Params: []string{"数"}, Body: []zn.Stmt{&zn.Return{E: &zn.Call{Name: "重抛", Args: []zn.Expr{v("数")}}}},
@@ -546,7 +554,7 @@ func TestRuntimeFaults(t *testing.T) {
 				home[i].prog.Body = append(home[i].prog.Body, &zn.FuncDef{Name: fmt.Sprintf("层%d", i), Params: []string{"参"}, Body: body, Catches: catches})
 			}
 		}
-		if useMod && len(mod.prog.Body) == 7 {
+		if useMod && len(mod.prog.Body) == 8 {
 			g.labels["module-unused"] = true
 		}
 		// render every unit with its own layout policy
